@@ -17,7 +17,10 @@
     checks that every non-safe manifest method has a row. *)
 From Coq Require Import String.
 From Verif Require Import Base.Prelude Model.Balance Proofs.BalanceSum Proofs.Balance
-  Model.Witness Proofs.Witness.
+  Model.Witness Proofs.Witness Proofs.WitnessModels.
+From Verif Require Model.Reputation Model.NeoFSID Model.Config Model.Audit Model.Estimations
+  Model.Placement Model.Container Model.Vote Model.NeoFSVote
+  Model.Gas Model.ProxyProc Model.Alphabet Model.NeoFSGas Model.GasWorld.
 Import Multisig.
 
 (** ** (a) Thresholds *)
@@ -148,6 +151,237 @@ Print Assumptions C03_inert_Balance.
 Theorem C03_Balance_rows : forall o, exists r, required (bop_key o) = Some r.
 Proof. intros [f t z|f t z d|t z d|f z d|d f t z u|e]; eexists; vm_compute; reflexivity. Qed.
 Print Assumptions C03_Balance_rows.
+
+(** ** (c') The other contract models are inert without the witnesses of
+    their rows.
+
+    Each model has its own notion of witness; the translation from the
+    abstract context is a function [to_<m>...] of Proofs/WitnessModels.v and
+    the line after each theorem says what it maps to what.  Where a model
+    abstracts a witness as a boolean or a key list carried by the operation,
+    the translation fills in the verdict of [eval_req] ([alpha_of_sound]). *)
+
+(** The boolean given to the models with an [alpha] flag is [RAlpha]'s
+    verdict; the witness list given to the models that keep one answers
+    exactly [witnessed]. *)
+Theorem C03_translations_sound : forall c a h,
+  alpha_of c a = eval_req c a RAlpha /\
+  existsb (bytes_eqb h) (wit_list c) = witnessed c h.
+Proof. intros c a h. split; [apply alpha_of_sound|apply wit_list_sound]. Qed.
+Print Assumptions C03_translations_sound.
+
+(** reputation.put *)
+Theorem C03_inert_Reputation : forall s c a e p v r,
+  required (KReputation, "put", 3%nat) = Some r -> eval_req c a r = false ->
+  Reputation.rstep s (to_rop c a e p v) = (s, VFault).
+Proof. exact inert_Reputation. Qed.
+Print Assumptions C03_inert_Reputation.
+
+(** neofsid.addKey / removeKey *)
+Theorem C03_inert_NeoFSID : forall s c a o r,
+  required (nid_key o) = Some r -> eval_req c a r = false ->
+  NeoFSID.nstep s (to_nidop c a o) = (s, VFault).
+Proof. exact inert_NeoFSID. Qed.
+Print Assumptions C03_inert_NeoFSID.
+
+(** netmap.setConfig, and neofs.setConfig of a notary-enabled deployment *)
+Theorem C03_inert_Config : forall kd s c a id key v r,
+  (kd = Config.CNeoFS -> ch_notary_off (a_chain a) = false) ->
+  required (cfg_key kd) = Some r -> eval_req c a r = false ->
+  Config.cstep kd s (to_cop c a id key v) = (s, VFault, []).
+Proof. exact inert_Config. Qed.
+Print Assumptions C03_inert_Config.
+
+(** audit.put: [acc] is CreateStandardAccount; the chain's Inner Ring
+    accounts are those of the model's [ir] keys and argument 0 designates the
+    account of the key parsed from the blob. *)
+Theorem C03_inert_Audit : forall (acc : bytes -> bytes) s c a ir raw hk r,
+  ch_ir_keys (a_chain a) = map acc ir ->
+  (forall h, Audit.parse_hdr raw = Halt h -> arg_princ a 0 = acc (Audit.h_from h)) ->
+  required (KAudit, "put", 1%nat) = Some r -> eval_req c a r = false ->
+  Audit.astep s (to_aop acc c ir raw hk) = (s, VFault).
+Proof. exact inert_Audit. Qed.
+Print Assumptions C03_inert_Audit.
+
+(** container.putContainerSize / container.newEpoch *)
+Theorem C03_inert_Estimations : forall (acc : bytes -> bytes) d1 d2 cap s c a o r,
+  (forall live wit prev e cid size pub h20,
+     o = Estimations.EPut live wit prev e cid size pub h20 -> arg_princ a 3 = acc pub) ->
+  required (est_key o) = Some r -> eval_req c a r = false ->
+  Estimations.estep d1 d2 cap s (to_eop acc c a o) = (s, VFault).
+Proof. exact inert_Estimations. Qed.
+Print Assumptions C03_inert_Estimations.
+
+(** container.addNextEpochNodes / commitContainerListUpdate /
+    submitObjectPut.  The last one is an OPEN row: no transaction witness is
+    consulted; its requirement [RArgSigs] is that the signatures passed as
+    argument verify against the stored placement, and without that the call
+    faults. *)
+Theorem C03_inert_Placement : forall sigvalid pubvalid deser notify_fits network s c a o k r,
+  pl_key o = Some k ->
+  (forall raw sigs cur cid, o = Placement.OSubmit raw sigs cur ->
+     Placement.verify sigvalid pubvalid s cid raw sigs = Halt true -> a_sigs_ok a = true) ->
+  required k = Some r -> eval_req c a r = false ->
+  Placement.pstep sigvalid pubvalid deser notify_fits network s (to_pop c a o) = (s, VFault, []).
+Proof. exact inert_Placement. Qed.
+Print Assumptions C03_inert_Placement.
+
+(** container.put (both overloads) / putNamed / delete / setEACL, and the
+    Balance and netmap.setConfig invocations of the Container world.  The
+    refusal is a fault, [false] (balance.transfer) or, for delete of a
+    container that is not there, the silent return listed in [silent_noops];
+    in every case the five contracts' state is the same and nothing is
+    emitted. *)
+Theorem C03_inert_Container : forall cid_of b58 w c a al now self o k r,
+  co_key o = Some k ->
+  (forall bo, o = Container.Bal bo -> a_princ a = bop_princ bo) ->
+  required k = Some r -> eval_req c a r = false ->
+  exists v, Container.wstep cid_of b58 w (to_cctx c a al now self, o) = (w, v, []) /\
+    (v = VFault \/ v = VBool false \/
+     (v = VNull /\ exists cid sig tok, o = Container.Delete cid sig tok)).
+Proof. exact inert_Container. Qed.
+Print Assumptions C03_inert_Container.
+
+(** NeoFS deployed with notaryDisabled: cheque / alphabetUpdate / setConfig /
+    innerRingCandidateRemove / innerRingCandidateAdd.  [vprinc] is the account
+    CheckWitness is about (the 20-byte string itself, the standard account of
+    a key); a byte string in the model's witness list has a witnessed account
+    ([to_nctx_sound]). *)
+Theorem C03_inert_NeoFSVote : forall valid_pub std_acc del_id (s : NeoFSVote.nstate) c a o k r h self,
+  nv_key o = Some k ->
+  ch_notary_off (a_chain a) = true ->
+  ch_neofs_keys (a_chain a) = map (vprinc std_acc) (NeoFSVote.alphabet s) ->
+  (forall key, o = NeoFSVote.CandidateRemove key \/ o = NeoFSVote.CandidateAdd key ->
+     arg_princ a 0 = vprinc std_acc key) ->
+  required k = Some r -> eval_req c a r = false ->
+  NeoFSVote.nstep valid_pub std_acc del_id s (to_nctx std_acc c (nv_keys s o) h self, o) = (s, None, []).
+Proof. exact inert_NeoFSVote. Qed.
+Print Assumptions C03_inert_NeoFSVote.
+
+Theorem C03_to_nctx_sound : forall std_acc c keys h self b,
+  b ∈ NeoFSVote.witnessed (to_nctx std_acc c keys h self) -> witnessed c (vprinc std_acc b) = true.
+Proof. exact to_nctx_sound. Qed.
+Print Assumptions C03_to_nctx_sound.
+
+(** The governance contracts on GAS, NeoFS in BOTH modes: withdraw / cheque /
+    bind / unbind / setConfig / alphabetUpdate / innerRingCandidateAdd /
+    innerRingCandidateRemove / onNEP17Payment, alphabet.emit, and the
+    onNEP17Payment of Alphabet, Processing and Proxy.  The only refusal that
+    is not a fault is NeoFS' silent return on the ignore-deposit marker
+    ([silent_noops]). *)
+Theorem C03_inert_GasWorld : forall e w c a cm ir h tx o k r,
+  gw_key e o = Some k ->
+  ch_notary_off (a_chain a) = NeoFSGas.notary_off (NeoFSGas.fs w) ->
+  ch_neofs_keys (a_chain a) = map (gprinc e) (NeoFSGas.alphabet (NeoFSGas.fs w)) ->
+  (forall b, gw_arg0 o = Some b -> arg_princ a 0 = gprinc e b) ->
+  (forall ad mt index proxy node, o = GasWorld.OEmit ad mt ->
+     Gas.kind_of e ad = Gas.KAlphabet index proxy ->
+     nth_error cm (Z.to_nat index) = Some node -> ch_alpha_key_at (a_chain a) = gprinc e node) ->
+  (forall tok t f am d, o = GasWorld.OTokenPay tok t f am d ->
+     wx_caller c = tok /\ ch_gas (a_chain a) = Gas.gasH e /\ ch_neo (a_chain a) = Gas.neoH e /\
+     Gas.hash_len (Gas.gasH e) = true /\ Gas.hash_len (Gas.neoH e) = true) ->
+  required k = Some r -> eval_req c a r = false ->
+  exists v, GasWorld.wstep e w (to_gctx c a cm ir h tx, o) = (w, v, []) /\
+    (v = VFault \/ (v = VNull /\ k = (KNeoFS, "onNEP17Payment", 3%nat))).
+Proof. exact inert_GasWorld. Qed.
+Print Assumptions C03_inert_GasWorld.
+
+Theorem C03_to_gctx_sound : forall e c a cm ir h tx,
+  (forall b, Gas.check_witness e (to_gctx c a cm ir h tx) b = Halt true -> witnessed c (gprinc e b) = true) /\
+  Gas.inb (Gas.alpha_addr (to_gctx c a cm ir h tx)) (Gas.wit (to_gctx c a cm ir h tx)) = eval_req c a RAlpha /\
+  Gas.inb (Gas.cmt_addr (to_gctx c a cm ir h tx)) (Gas.wit (to_gctx c a cm ir h tx)) = eval_req c a RCommittee /\
+  Gas.inb (Gas.fs_alpha_addr (to_gctx c a cm ir h tx)) (Gas.wit (to_gctx c a cm ir h tx)) = eval_req c a RNeoFSAlpha.
+Proof. intros. split; [intros b; apply to_gctx_sound|apply to_gctx_alpha]. Qed.
+Print Assumptions C03_to_gctx_sound.
+
+(** The safe verify methods of that world answer exactly their rows
+    ([verify_required]). *)
+Theorem C03_verify_GasWorld : forall c a cm ir h tx,
+  ProxyProc.proxy_verify (to_gctx c a cm ir h tx) = eval_req c a (ROr RAlpha RCommittee) /\
+  Alphabet.alphabet_verify (to_gctx c a cm ir h tx) = eval_req c a (ROr RAlpha RCommittee) /\
+  (forall b, ProxyProc.processing_verify (to_gctx c a cm ir h tx) = Halt b -> b = eval_req c a RNeoFSAlpha).
+Proof. exact verify_GasWorld. Qed.
+Print Assumptions C03_verify_GasWorld.
+
+(** ** Which rows have a proved inertness theorem *)
+Definition proved_rows : list (mkey * string) := [
+  ((KBalance, "burn", 3%nat), "C03_inert_Balance, C03_inert_Container");
+  ((KBalance, "lock", 5%nat), "C03_inert_Balance, C03_inert_Container");
+  ((KBalance, "mint", 3%nat), "C03_inert_Balance, C03_inert_Container");
+  ((KBalance, "newEpoch", 1%nat), "C03_inert_Balance, C03_inert_Container");
+  ((KBalance, "transfer", 4%nat), "C03_inert_Balance, C03_inert_Container");
+  ((KBalance, "transferX", 4%nat), "C03_inert_Balance, C03_inert_Container");
+  ((KReputation, "put", 3%nat), "C03_inert_Reputation");
+  ((KNeoFSID, "addKey", 2%nat), "C03_inert_NeoFSID");
+  ((KNeoFSID, "removeKey", 2%nat), "C03_inert_NeoFSID");
+  ((KNetmap, "setConfig", 3%nat), "C03_inert_Config, C03_inert_Container");
+  ((KAudit, "put", 1%nat), "C03_inert_Audit");
+  ((KContainer, "putContainerSize", 4%nat), "C03_inert_Estimations");
+  ((KContainer, "newEpoch", 1%nat), "C03_inert_Estimations");
+  ((KContainer, "addNextEpochNodes", 3%nat), "C03_inert_Placement");
+  ((KContainer, "commitContainerListUpdate", 2%nat), "C03_inert_Placement");
+  ((KContainer, "submitObjectPut", 2%nat), "C03_inert_Placement (open row: RArgSigs)");
+  ((KContainer, "put", 4%nat), "C03_inert_Container");
+  ((KContainer, "put", 5%nat), "C03_inert_Container");
+  ((KContainer, "putNamed", 6%nat), "C03_inert_Container");
+  ((KContainer, "delete", 3%nat), "C03_inert_Container");
+  ((KContainer, "setEACL", 4%nat), "C03_inert_Container");
+  ((KNeoFS, "setConfig", 3%nat), "C03_inert_Config (notary), C03_inert_NeoFSVote (no notary), C03_inert_GasWorld (both)");
+  ((KNeoFS, "cheque", 4%nat), "C03_inert_NeoFSVote (no notary), C03_inert_GasWorld (both)");
+  ((KNeoFS, "alphabetUpdate", 2%nat), "C03_inert_NeoFSVote (no notary), C03_inert_GasWorld (both)");
+  ((KNeoFS, "innerRingCandidateRemove", 1%nat), "C03_inert_NeoFSVote (no notary), C03_inert_GasWorld (both)");
+  ((KNeoFS, "innerRingCandidateAdd", 1%nat), "C03_inert_NeoFSVote, C03_inert_GasWorld");
+  ((KNeoFS, "withdraw", 2%nat), "C03_inert_GasWorld");
+  ((KNeoFS, "bind", 2%nat), "C03_inert_GasWorld");
+  ((KNeoFS, "unbind", 2%nat), "C03_inert_GasWorld");
+  ((KNeoFS, "onNEP17Payment", 3%nat), "C03_inert_GasWorld");
+  ((KAlphabet, "emit", 0%nat), "C03_inert_GasWorld");
+  ((KAlphabet, "onNEP17Payment", 3%nat), "C03_inert_GasWorld");
+  ((KProcessing, "onNEP17Payment", 3%nat), "C03_inert_GasWorld");
+  ((KProxy, "onNEP17Payment", 3%nat), "C03_inert_GasWorld")
+].
+
+(** Rows for which there is nothing to prove: the requirement is [ROpen]. *)
+Definition trivially_open (k : mkey) : bool :=
+  match required k with Some ROpen => true | _ => false end.
+
+Definition is_proved (k : mkey) : bool := existsb (fun x => mkey_eqb k (fst x)) proved_rows.
+
+(** Rows covered only by the sweep of harness/witness_test.go (no model yet:
+    Netmap, NNS, the update / _deploy / _initialize entry points, ...). *)
+Definition swept_only_rows : list mkey :=
+  filter (fun k => negb (is_proved k) && negb (trivially_open k) = true) (map fst table).
+
+(** Every listed row is a row of the table, is listed once, is the key of one
+    of the operations of the models above; 34 of the 90 rows are proved, 3 are
+    open with nothing to prove, 53 are swept only. *)
+Theorem C03_models_cover :
+  forallb (fun x => match required (fst x) with Some _ => true | None => false end) proved_rows = true /\
+  keys_distinct (map fst proved_rows) = true /\
+  (length proved_rows, length (filter trivially_open (map fst table)), length swept_only_rows, length table)
+    = (34, 3, 53, 90)%nat /\
+  (* the keys the models' operations are mapped to are exactly the listed ones *)
+  (forall o, is_proved (bop_key o) = true) /\
+  (forall o, is_proved (nid_key o) = true) /\
+  (forall kd, is_proved (cfg_key kd) = true) /\
+  (forall o, is_proved (est_key o) = true) /\
+  (forall o k, pl_key o = Some k -> is_proved k = true) /\
+  (forall o k, co_key o = Some k -> is_proved k = true) /\
+  (forall o k, nv_key o = Some k -> is_proved k = true) /\
+  (forall e o k, gw_key e o = Some k -> is_proved k = true).
+Proof.
+  split; [vm_compute; reflexivity|]. split; [vm_compute; reflexivity|]. split; [vm_compute; reflexivity|].
+  split; [intros []; reflexivity|]. split; [intros []; reflexivity|]. split; [intros []; reflexivity|].
+  split; [intros []; reflexivity|].
+  split; [intros o kk H; destruct o; cbn in H; try discriminate H; injection H as <-; reflexivity|].
+  split; [intros o kk H; destruct o; cbn in H; try discriminate H; injection H as <-; try reflexivity;
+          match goal with |- is_proved (bop_key ?b) = true => destruct b; reflexivity end|].
+  split; [intros o kk H; destruct o; cbn in H; try discriminate H; injection H as <-; reflexivity|].
+  intros e o kk H; destruct o; cbn [gw_key] in H; try discriminate H; try (injection H as <-; reflexivity).
+  match type of H with context [Gas.kind_of e ?t] => destruct (Gas.kind_of e t) end;
+    try discriminate H; injection H as <-; reflexivity.
+Qed.
+Print Assumptions C03_models_cover.
 
 (** ** Soundness of the checker used by the cases file *)
 Theorem C03_check_case_sound : forall x r,
